@@ -9,7 +9,12 @@
    and with which value of `trusted` (the model is XmiLoadC17.load_entry), and carries the numbers that operations done
    AFTER the load received from the loaded CAS (an add of a fresh uima.cas.TOP through the CAS and through each view
    handle, a new view, one more add): they are the ones the model's id generators hand out, and in lenient mode also
-   the ones the generators of the model's strict result on drop_unknown(document) hand out. *)
+   the ones the generators of the model's strict result on drop_unknown(document) hand out.
+   Third wave: the TypeSystem object given to the observed load may have a history (k_hist): earlier loads of the same
+   document through the same object while some of the types of k_schema were not yet defined (their names, the flag
+   of that load and the error kind it ended with, None = it returned a CAS), the missing types created in between.
+   The model runs the whole XmiLoadC17.session; every earlier load ends as observed and the last one is the observed
+   load (by C17_session_history_irrelevant it is load_xmi for the types defined at that moment). *)
 From Cassis Require Import Base Offsets Heap Schema Canon Lex XmiDoc XmiLoad XmiLoadC17 CorrC05.
 Open Scope Z_scope.
 
@@ -21,6 +26,7 @@ Record case := mkCase {
   k_lenient : bool;
   k_source : source;
   k_trusted : bool;
+  k_hist : list (list tname * bool * option err);         (* earlier loads through the same TypeSystem object *)
   k_obs : outcome;
   k_later : list (op * list Z);                           (* operations after the load and the numbers they received *)
   k_adds : list (list string * tname * option err) }.     (* handle path, foreign type name, None = accepted *)
@@ -50,8 +56,36 @@ Definition gens_res_eqb (a b : res lcas) : bool :=
   | Ok _, _ | _, Ok _ => false
   | _, _ => true
   end.
+(* the session of the TypeSystem object: start without the types absent at the first stage; after each earlier load
+   create the types that the next stage (at the end: the observed load) has in addition *)
+Definition named (names : list tname) (t : tinfo) : bool := existsb (String.eqb (ti_name t)) names.
+Definition absent_at (h : list (list tname * bool * option err)) : list tname :=
+  match h with [] => [] | (a, _, _) :: _ => a end.
+Fixpoint hist_ops (s : schema) (d : xdoc) (h : list (list tname * bool * option err)) : list sop :=
+  match h with
+  | [] => []
+  | (a, b, _) :: r =>
+    (SLoad SrcFile b false d :: map SCreate (filter (fun t => named a t && negb (named (absent_at r) t)) s) ++ hist_ops s d r)%list
+  end.
+Definition start_schema (c : case) : schema := filter (fun t => negb (named (absent_at (k_hist c)) t)) (k_schema c).
+Definition case_ops (c : case) : list sop :=
+  (hist_ops (k_schema c) (k_doc c) (k_hist c) ++ [SLoad (k_source c) (k_lenient c) (k_trusted c) (k_doc c)])%list.
+Definition stage_ok (r : res lcas) (h : list tname * bool * option err) : bool :=
+  match r, snd h with
+  | Ok _, None => true
+  | Err e, Some e' => err_eqb e e'
+  | _, _ => false
+  end.
+Fixpoint stages_ok (rs : list (res lcas)) (h : list (list tname * bool * option err)) : bool :=
+  match rs, h with
+  | _, [] => true
+  | r :: rs', x :: h' => stage_ok r x && stages_ok rs' h'
+  | [], _ :: _ => false
+  end.
 Definition check_case (c : case) : bool :=
-  let r := load_entry (k_flt c) (k_source c) (k_schema c) (k_lenient c) (k_trusted c) (k_doc c) in
+  let rs := session (k_flt c) (start_schema c) (case_ops c) in
+  let r := last rs OutOfFuel in
+  Nat.eqb (List.length rs) (S (List.length (k_hist c))) && stages_ok rs (k_hist c) &&
   (match r, k_obs c with
    | Err e, OErr e' => err_eqb e e'
    | Ok lc, OCas cc => same_as_obs (as05 c cc) (canon_loaded (k_schema c) lc) && forallb (add_ok c lc) (k_adds c)
